@@ -35,11 +35,12 @@ def apply_mutant(root, m):
     open(p, "w").write(s.replace(m["old"], m["new"]))
 
 
-def run_rules(pid, fdir, tier="quick"):
+def run_rules(pid, fdir, tier="quick", root=None):
     mod = importlib.import_module(pid.lower())
     db = facts.DB(fdir)
     ctx = engine.Ctx(pid, tier, db, provmod.Prov(db))
     ctx.facts_dir = fdir
+    ctx.repo_root = root
     try:
         mod.run(ctx)
     except KeyError as e:
@@ -67,7 +68,7 @@ def selftest(pid, only=None, verbose=True):
             except SystemExit as e:
                 failures.append("%s: mutant does not compile (%s)" % (m["id"], e))
                 continue
-            viol = run_rules(pid, fdir)
+            viol = run_rules(pid, fdir, root=root)
             keys = [v["key"] for v in viol]
             if m.get("control"):
                 ok = not viol
